@@ -233,7 +233,9 @@ class BracedNameToken(XPathToken):
             namespace = ''
         else:
             value = self.parser.next_token.value
-            assert isinstance(value, str)
+            if not isinstance(value, str):
+                # a numeric literal: take the characters of the URI from the source
+                value = self.parser.source[slice(*self.parser.next_token.span)]
             namespace = value + self.parser.advance_until('}')
             namespace = collapse_white_spaces(namespace)
 
